@@ -50,7 +50,7 @@ Definition readonly_mask : Z := 1603.
 (* mem/file.go FileInfo.Size of a directory *)
 Definition dir_size : Z := 42.
 (* regexpfs.go OpenFile: 1 iff the returned file is wrapped in a RegexpFile (filtered listings) *)
-Definition regexp_openfile_wraps : Z := 0.
+Definition regexp_openfile_wraps : Z := 1.
 (* copyOnWriteFs.go OpenFile: write path iff flag&MASK != 0 *)
 Definition cow_mask : Z := 1603.
 (* cacheOnReadFs.go OpenFile: union handle over both layers iff flag&MASK != 0 *)
